@@ -53,6 +53,17 @@ Theorem C19_formula_seq_after_reset : forall b rs0 rs,
   map (fun k => Dur (expo (set_default b) (Z.of_nat k) * millisecond)) (seq 0 (length rs)).
 Proof. intros b rs0 rs. exact (dur_seq_after_reset rs0 rs b). Qed.
 
+(* Successive outages handled by one StreamManager (each retry loop runs on a fresh
+   back-off value, i.e. after reset): whatever the numbers of failed attempts of the
+   earlier outages, the wait after the k-th failed attempt of an outage is bounded by
+   min(cap, base * factor^k) ms -- it does not depend on the earlier outages. *)
+Theorem C19_outages_restart : forall b ms,
+  no_jitter b = true -> bounds (set_default b) ->
+  outages b ms =
+  map (fun m => map (fun k => Dur (expo (set_default b) (Z.of_nat k) * millisecond))
+                    (seq 0 (Z.to_nat m))) ms.
+Proof. intros b ms. exact (outages_spec ms b b eq_refl). Qed.
+
 (* Non-decreasing in n (the formula, and the delays returned without jitter). *)
 Theorem C19_monotone : forall b n m,
   positive_params b -> 0 <= n <= m -> expo b n <= expo b m.
@@ -127,6 +138,7 @@ Print Assumptions C19_formula_query.
 Print Assumptions C19_seq_is_query.
 Print Assumptions C19_formula_seq.
 Print Assumptions C19_formula_seq_after_reset.
+Print Assumptions C19_outages_restart.
 Print Assumptions C19_monotone.
 Print Assumptions C19_monotone_delays.
 Print Assumptions C19_reaches_cap.
